@@ -946,6 +946,10 @@ def c16(tier, seed):
     # the heavy-tailed price distribution of the project's documentation (sigma = 10) on every tick size
     ck.traces_stage("agents_sigma10", "record_agents", dict(base, kinds=["noise", "momentum"], sigmas=[10.0]), files=8 if q else 32,
                     runs=100 if q else 200, ops=0, trace_spec="AgentTrace", consts={})
+    # "an action with probability at least 1 always happens": momentum agents under imposed price paths at saturated demand, order
+    # ratios 0, 1/2, 1, 2 (the limit-order probability is the order ratio times the market-order probability), heavy tails included
+    ck.traces_stage("agents_momentum_saturated", "record_agents", dict(base, kinds=["momentum"], saturate=True, max_steps=18, probs=[0.0, 0.3], sigmas=[1.0, 10.0]),
+                    files=4 if q else 16, runs=100 if q else 200, ops=0, trace_spec="AgentTrace", consts={})
     # the same relations inside complete simulations (mixed agent sets on one environment, through the real runners); here TLC
     # derives what the agent could observe from its own specification state instead of taking it from the recorder
     sim_traces(ck, "agents_in_simulations", files=6 if q else 48, runs=4 if q else 8, steps=30 if q else 100)
